@@ -21,7 +21,9 @@ V = os.path.join(os.path.dirname(os.path.abspath(__file__)), "..")
 OUT = os.environ.get("C2IMP_OUT") or os.path.join(V, "coq", "Gen", "Prog.v")
 
 WANTED = [("sbdfstring.c", "sbdf_convert_utf8_to_iso88591"), ("sbdfstring.c", "sbdf_convert_iso88591_to_utf8"),
-          ("internals.c", "sbdf_read_7bitpacked_int32"), ("internals.c", "sbdf_write_7bitpacked_int32")]
+          ("internals.c", "sbdf_read_7bitpacked_int32"), ("internals.c", "sbdf_write_7bitpacked_int32"),
+          # the byte-order conversion under both build configurations (src/bswap.c keys on __sparc)
+          ("bswap.c", "sbdf_swap", [], "prog_sbdf_swap_le"), ("bswap.c", "sbdf_swap", ["-D__sparc"], "prog_sbdf_swap_be")]
 
 
 class Untranslatable(Exception):
@@ -31,15 +33,15 @@ class Untranslatable(Exception):
 OUTPARAMS = set()
 
 
-def ast_of(path):
-    p = subprocess.run(["clang", "-fsyntax-only", "-w", "-I", REPO + "/include", "-I", REPO + "/src",
-                        "-Xclang", "-ast-dump=json", path], capture_output=True, text=True)
+def ast_of(path, cfg=()):
+    p = subprocess.run(["clang", "-fsyntax-only", "-w", "-I", REPO + "/include", "-I", REPO + "/src"] + list(cfg) +
+                       ["-Xclang", "-ast-dump=json", path], capture_output=True, text=True)
     if p.returncode != 0:
         sys.stderr.write(p.stderr[-2000:]); sys.exit(2)
     return json.loads(p.stdout)
 
 
-BIN = {"+": "Add", "-": "Sub", "*": "Mul", "<<": "Shl", ">>": "Shr", "&": "BAnd", "|": "BOr", "^": "BXor",
+BIN = {"+": "Add", "-": "Sub", "*": "Mul", "/": "Div", "<<": "Shl", ">>": "Shr", "&": "BAnd", "|": "BOr", "^": "BXor",
        "<": "Lt", "<=": "Le", ">": "Gt", ">=": "Ge", "==": "Eq", "!=": "Ne"}
 CTY = {"int": "TInt", "unsigned char": "TUChar", "char": "TChar", "const char": "TChar", "const unsigned char": "TUChar", "const int": "TInt",
        "unsigned int": "TUInt", "const unsigned int": "TUInt"}
@@ -55,7 +57,7 @@ def is_intlike(t):
 
 
 def is_charptr(t):
-    return t.replace("const ", "").replace(" ", "") in ("char*", "unsignedchar*")
+    return t.replace("const ", "").replace(" ", "") in ("char*", "unsignedchar*", "void*")
 
 
 def zlit(v):
@@ -152,17 +154,17 @@ def expr(n, scope):
             if t not in CTY: raise Untranslatable("cast to " + t)
             e, f = expr(sub, scope)
             return "(ECast %s %s)" % (CTY[t], e), f
-        if ck == "NoOp":
+        if ck == "NoOp" or (ck == "BitCast" and is_charptr(qt(n)) and is_charptr(qt(sub))):
             return expr(sub, scope)
         raise Untranslatable("cast kind " + str(ck))
     if k == "UnaryOperator":
         op = n.get("opcode")
         sub = n["inner"][0]
-        if op in ("++",):
+        if op in ("++", "--"):
             v = var_of(sub, scope)
-            if v is None: raise Untranslatable("++ on a non-variable")
+            if v is None: raise Untranslatable(op + " on a non-variable")
             f = Fx(); f.r.add(v); f.w.add(v)
-            return '(%s "%s")' % ("EPostInc" if n.get("isPostfix") else "EPreInc", v), f
+            return '(%s%s "%s")' % ("EPost" if n.get("isPostfix") else "EPre", "Inc" if op == "++" else "Dec", v), f
         if op == "!":
             e, f = expr(sub, scope); return "(ELNot %s)" % e, f
         if op == "-":
@@ -207,6 +209,8 @@ def expr(n, scope):
             ea, fa = expr(a, scope); eb, fb = expr(b, scope)
             if not order_ok(fa, fb): raise Untranslatable("operands of %s depend on the evaluation order" % op)
             ta, tb = qt(a), qt(b)
+            if op == "+" and is_charptr(ta) and tb == "int":
+                return "(EPtrAdd %s %s)" % (ea, eb), fx_join(fa, fb)
             if ta in SIZE_T and tb in SIZE_T and op in ("==", "!=", "<", "<=", ">", ">="):
                 return "(EBin %s %s %s)" % (BIN[op], ea, eb), fx_join(fa, fb)        # counts of fread / fwrite: 0 or 1
             if not (ta in CTY and tb in CTY): raise Untranslatable("operator %s on %s, %s" % (op, ta, tb))
@@ -310,11 +314,14 @@ def main():
              "From Sbdf Require Import Imp.", "Local Open Scope Z_scope.", "Local Open Scope string_scope.", ""]
     cache = {}
     notes = []
-    for fname, fn in WANTED:
+    for w in WANTED:
+        fname, fn = w[0], w[1]
+        cfg = tuple(w[2]) if len(w) > 2 else ()
+        pname = w[3] if len(w) > 3 else "prog_" + fn
         path = os.path.join(REPO, "src", fname)
-        if path not in cache: cache[path] = ast_of(path)
+        if (path, cfg) not in cache: cache[(path, cfg)] = ast_of(path, cfg)
         decl = None
-        for n in cache[path]["inner"]:
+        for n in cache[(path, cfg)]["inner"]:
             if n.get("kind") == "FunctionDecl" and n.get("name") == fn and any(c.get("kind") == "CompoundStmt" for c in n.get("inner", [])):
                 decl = n
         try:
@@ -332,12 +339,12 @@ def main():
             b = stmt(body, scope, declared)
             if "EDeref" in b and ("EReadByte" in b): raise Untranslatable("the input is used both as memory and as a stream")
             locs = [x for x in sorted(declared) if x not in params] + sorted(OUTPARAMS)
-            lines.append("Definition prog_%s : func :=\n  {| fparams := [%s];\n     flocals := [%s];\n     fbody := %s |}."
-                         % (fn, "; ".join('"%s"' % p for p in params), "; ".join('"%s"' % p for p in locs), b))
+            lines.append("Definition %s : func :=\n  {| fparams := [%s];\n     flocals := [%s];\n     fbody := %s |}."
+                         % (pname, "; ".join('"%s"' % p for p in params), "; ".join('"%s"' % p for p in locs), b))
             lines.append("")
         except Untranslatable as ex:
-            notes.append("%s: %s" % (fn, ex))
-            lines.append("(* %s could not be translated: %s *)" % (fn, ex)); lines.append("")
+            notes.append("%s: %s" % (pname, ex))
+            lines.append("(* %s could not be translated: %s *)" % (pname, ex)); lines.append("")
     text = "\n".join(lines) + "\n"
     old = open(OUT).read() if os.path.exists(OUT) else None
     if old != text:
